@@ -399,6 +399,23 @@ def snapshot_state():
     _snapshot['items'] = [(k, o, n, v, (type(v)(v) if k == 'c' else None)) for k, o, n, v in items]
 
 
+_M = object()
+
+
+def _unchanged(obj, content):
+    """identity comparison (never calls == on the elements: they may be proxies)"""
+    if len(obj) != len(content):
+        return False
+    if isinstance(obj, dict):
+        for k, v in content.items():
+            if obj.get(k, _M) is not v:
+                return False
+        return True
+    if isinstance(obj, list):
+        return all(x is y for x, y in zip(obj, content))
+    return all(x in obj for x in content)
+
+
 def reset_state():
     """bring that state back: what a fresh interpreter would start from (memo dicts, lru caches, class-level caches)"""
     if not _snapshot:
@@ -407,6 +424,8 @@ def reset_state():
     for kind, owner, name, obj, content in _snapshot['items']:
         if kind == 'f':
             obj.cache_clear()
+        elif _unchanged(obj, content):
+            continue
         elif isinstance(obj, dict):
             obj.clear(); obj.update(content)
         elif isinstance(obj, list):
